@@ -76,7 +76,8 @@ class Concretizer:
         if t == "dict":
             c = self.heap.data.get((v.ref, "$"))
             if isinstance(c, DConc):
-                return {"$dict": [[self.obj(k, depth + 1) if isinstance(k, Obj) else k, self.val(x, depth + 1)]
+                return {"$dict": [[self.obj(k, depth + 1) if isinstance(k, Obj) else
+                                   (self.val(k, depth + 1) if isinstance(k, Val) else k), self.val(x, depth + 1)]
                                   for k, x in c.entries]}
             if isinstance(c, DMap):
                 return {"$dict": self.dmap(c, v.ref)}
